@@ -296,6 +296,14 @@ Definition block_hash_post07 (b : block) : term :=
          tx_commitment_ped (ver_ge (h_ver h) (0, 11, 1)) (b_txs b); TC (h_event_count h);
          event_commitment_ped (b_rcpts b); TC 0; TC 0; h_parent h].
 
+(* pre07Hash: block version < 0.13.2 and number < network.First07Block (mainnet < 833, goerli < 47028; never on
+   Sepolia or the integration networks, where First07Block = 0 — hence not part of [block_hash] below, which has
+   no network parameter). Only number, root, transaction count, transaction commitment, chain id and parent. *)
+Definition block_hash_pre07 (chain : Z) (b : block) : term :=
+  let h := b_hdr b in
+  TPedN [TC (h_number h); h_state_root h; TC 0; TC 0; TC (h_tx_count h);
+         tx_commitment_ped (ver_ge (h_ver h) (0, 11, 1)) (b_txs b); TC 0; TC 0; TC 0; TC 0; TC chain; h_parent h].
+
 (* core.BlockHash dispatch *)
 Definition block_hash (b : block) : option term :=
   let v := h_ver (b_hdr b) in
